@@ -795,7 +795,7 @@ func vfTreeProperty(ev *vfEvidence, persistent bool) func(t *rapid.T) {
 				{Kind: "bulk", K: uint64(1000 + n1), C: 1, N: n2, V: 6}, {Kind: "reopen"}, {Kind: "bulk", K: 500000000, C: 3, N: 40, V: 7}}
 			planAt = rapid.IntRange(0, nops).Draw(t, "planat")
 		}
-		if !persistent && !c.Squeeze && c.MaxKeys <= 9 && rapid.IntRange(0, 199).Draw(t, "growresetregrow") == 0 {
+		if !persistent && !c.Squeeze && c.MaxKeys <= 9 && rapid.IntRange(0, 599).Draw(t, "growresetregrow") == 0 {
 			// outgrow the first MiB of pages, Reset, grow past it again with other keys in another order (pages beyond the
 			// first MiB are used a second time), then the usual operations and the full comparison (Get and IterateKV)
 			pages := minSize / (16 * (c.MaxKeys + 1))
@@ -806,7 +806,7 @@ func vfTreeProperty(ev *vfEvidence, persistent bool) func(t *rapid.T) {
 				second = vfTreeOp{Kind: "bulk", K: uint64(n2) * 11, C: uint64(rapid.IntRange(1, 9).Draw(t, "grrstride2")), N: n2, V: 6, Desc: true}
 			}
 			plan = []vfTreeOp{{Kind: "bulk", K: 1000, C: 1, N: n1, V: 5}, {Kind: "reset"}, second}
-			planAt = rapid.IntRange(0, nops).Draw(t, "planat")
+			planAt = nops // at the end: every further operation would pay for a full comparison of tens of thousands of keys
 		}
 		if persistent && plan == nil && rapid.IntRange(0, 99).Draw(t, "fillboundary") >= 94 {
 			// close the file when (almost) every whole page slot of the initial 1 MiB mapping is in use
